@@ -118,6 +118,12 @@ func (t *Crypto) deriveKEKAndUnwrap(alg string, encCEK, apu, apv, tag []byte, ep
 			return nil, fmt.Errorf("deriveKEKAndUnwrap: error ECDH-1PU kek derivation: %w", err)
 		}
 	case ECDHESA256KWAlg, ECDHESXC20PKWAlg:
+		// ECDH-ES does not involve the sender's key. Unwrapping "successfully" while the caller expects the given
+		// sender to be authenticated (authcrypt) would attribute an anonymous message to that sender.
+		if senderKH != nil {
+			return nil, errors.New("deriveKEKAndUnwrap: a sender key cannot be authenticated with an ECDH-ES key wrapping alg")
+		}
+
 		kek, err = t.deriveESKEKForUnwrap(alg, apu, apv, epk, recipientPrivateKey)
 		if err != nil {
 			return nil, fmt.Errorf("deriveKEKAndUnwrap: error ECDH-ES kek derivation: %w", err)
